@@ -8,9 +8,10 @@ from __future__ import annotations
 
 import ast
 import re as _re
-from typing import List
+from typing import Dict, List, Set
 
 from .. import boolnorm as bn
+from ..cfg import CFG
 from ..core import Ctx, RuleReport, rule
 from ..resolve import bool_function_formula, condition_of, expand, facts_ex, local_callees, unique_def, view
 from ..src import AnalysisError, FuncInfo, norm, try_fold, walk_local
@@ -778,3 +779,116 @@ def _expand_all(ctx: Ctx, fi: FuncInfo, ret: ast.Return, limit: int = 16) -> Lis
             out = nxt
         return out
     return alts(copy.deepcopy(ret.value), ret, 0)
+
+
+# ---------------------------------------------------------------------------------------------
+@rule('R91', 'Model.errors gives the graph-level messages exactly when they apply (empty graph / top not set / top not a source), and looks for unreachable triples otherwise')
+def r91(ctx: Ctx) -> RuleReport:
+    import re as _re
+    rep = RuleReport('R91', r91.title, floor=4)
+    fi = ctx.repo.func(M, 'Model.errors')
+    gp = fi.positional[1]
+    cfg = CFG(fi.node)
+    aliases = {gp + '.triples': 'TRIPLES', gp + '.top': 'TOP'}
+    for nm, vals in ctx.cg.local_assigns(fi).items():
+        if len(vals) == 1 and isinstance(vals[0], ast.AST) and norm(vals[0]) in aliases:
+            aliases[nm] = aliases[norm(vals[0])]
+
+    def canon(src: str) -> str:
+        for k in sorted(aliases, key=len, reverse=True):
+            src = _re.sub(r'(?<![\w.])' + _re.escape(k) + r'(?![\w])', aliases[k], src)
+        return src
+
+    def atom_of(e: ast.AST):
+        """-> (atom, value of the atom when the condition is true) or None"""
+        s = canon(norm(e)).replace(' ', '')
+        table = {'len(TRIPLES)==0': ('E', True), 'notTRIPLES': ('E', True), 'TRIPLES': ('E', False), 'len(TRIPLES)': ('E', False), 'len(TRIPLES)>0': ('E', False),
+                 'len(TRIPLES)!=0': ('E', False), 'len(TRIPLES)<1': ('E', True), '0==len(TRIPLES)': ('E', True), 'len(TRIPLES)>=1': ('E', False),
+                 'TOP': ('T', True), 'notTOP': ('T', False), 'TOPisNone': ('T', False), 'TOPisnotNone': ('T', True), 'bool(TOP)': ('T', True)}
+        if s in table:
+            return table[s]
+        m = _re.fullmatch(r'TOP(notin|in)(\w+)', s)
+        if m:
+            return ('V', m.group(1) == 'in')
+        m = _re.fullmatch(r'all\(\(?\w+!=TOPfor.*inTRIPLES\)?\)', s)
+        if m:
+            return ('V', False)
+        m = _re.fullmatch(r'any\(\(?\w+==TOPfor.*inTRIPLES\)?\)', s)
+        if m:
+            return ('V', True)
+        return None
+    MSG = {'graph is empty': 'empty', 'top is not set': 'notset', 'top is not a variable in the graph': 'notvar'}
+    sites: Dict[str, Set[int]] = {'empty': set(), 'notset': set(), 'notvar': set(), 'dfs': set()}
+    for nd in cfg.nodes:
+        if nd.kind != 'stmt' or nd.ast is None:
+            continue
+        for x in ast.walk(nd.ast):
+            if isinstance(x, ast.Constant) and x.value in MSG:
+                sites[MSG[x.value]].add(nd.id)
+            if isinstance(x, ast.Call) and norm(x.func) in ('_dfs', 'self._dfs') or (isinstance(x, ast.Call) and isinstance(x.func, ast.Name) and 'reach' in x.func.id.lower()):
+                sites['dfs'].add(nd.id)
+    missing = [k for k in ('empty', 'notset', 'notvar') if not sites[k]]
+    if missing:
+        rep.undecided(f'{fi.fq}: the three graph-level messages are literal strings in the function', fi.loc(), f'not found: {missing}')
+        return rep
+
+    def explore(assign: Dict[str, bool]):
+        """(set of site kinds reachable on some path, set of site kinds that every complete path passes)"""
+        may: Set[str] = set()
+        # must: for each kind, is there a complete path avoiding all its sites?
+        def walk(avoid: Set[int]):
+            seen, stack = set(), [cfg.entry]
+            reached_exit = False
+            visited = set()
+            while stack:
+                n = stack.pop()
+                if n in seen or n in avoid:
+                    continue
+                seen.add(n)
+                visited.add(n)
+                if n == cfg.exit:
+                    reached_exit = True
+                    continue
+                node = cfg.nodes[n]
+                at = atom_of(node.ast) if node.kind == 'cond' else None
+                for m, lab in cfg.succ[n]:
+                    if lab == 'exc' or m == cfg.rexit:
+                        continue
+                    if at is not None and at[0] in assign:
+                        truth = assign[at[0]] == at[1]
+                        if (lab == 'T') != truth:
+                            continue
+                    stack.append(m)
+            return reached_exit, visited
+        _, vis = walk(set())
+        for k, ids in sites.items():
+            if ids & vis:
+                may.add(k)
+        must = set()
+        for k, ids in sites.items():
+            ex, _ = walk(ids)
+            if not ex and ids:
+                must.add(k)
+        return may, must
+    cases = [('the graph has no triples', {'E': True}, 'empty'),
+             ('the graph has triples and no top', {'E': False, 'T': False}, 'notset'),
+             ('the graph has triples and a top that is the source of no triple', {'E': False, 'T': True, 'V': False}, 'notvar'),
+             ('the graph has triples and a top that is a source', {'E': False, 'T': True, 'V': True}, 'dfs')]
+    names = {'empty': '"graph is empty"', 'notset': '"top is not set"', 'notvar': '"top is not a variable in the graph"', 'dfs': 'the search for unreachable triples'}
+    for label, assign, want in cases:
+        may, must = explore(assign)
+        key = f'{fi.fq}: when {label}: {names[want]}, and none of the other graph-level messages'
+        wrong = sorted(k for k in may if k != want and not (k == 'dfs'))
+        if want == 'dfs' and not sites['dfs']:
+            rep.undecided(key, fi.loc(), 'no call of the reachability search found')
+            continue
+        if want not in must:
+            rep.violation(key, fi.loc(), f'a path through the function for this case does not pass {names[want]}' + (f' (it is never reached in this case)' if want not in may else '') +
+                          ': the report lacks the entry that applies (and --check may exit 0 for a graph that has this problem)')
+        elif wrong:
+            rep.violation(key, fi.loc(), f'in this case {", ".join(names[w] for w in wrong)} can be reported although it does not apply')
+        elif want != 'dfs' and 'dfs' in may and want in ('empty', 'notset', 'notvar'):
+            rep.violation(key, fi.loc(), 'the reachability search runs although there is no usable top to start from (KeyError / wrong "unreachable" entries)')
+        else:
+            rep.ok(key, fi.loc())
+    return rep
